@@ -448,6 +448,12 @@ func (mpt *MerklePatriciaTrie) delete(key Key, prefix, path Path) (Node, Key, er
 			if !nodeImpl.HasValue() {
 				return nil, nil, ErrValueNotPresent
 			}
+			if nodeImpl.GetNumChildren() == 1 {
+				// a full node with a single child and no value anymore should lift up the child
+				tempNode := nodeImpl.Clone().(*FullNode)
+				tempNode.SetValue(nil)
+				return mpt.liftOnlyChild(node, tempNode, prefix)
+			}
 		case *ExtensionNode:
 			return nil, nil, ErrValueNotPresent
 		}
@@ -642,51 +648,7 @@ func (mpt *MerklePatriciaTrie) deleteAtNode(key Key, node Node, prefix, path Pat
 					tempNode := nodeImpl.Clone().(*FullNode)
 					// clear the child being deleted
 					tempNode.PutChild(path[0], nil)
-					var otherChildKey []byte
-					var oidx byte
-					for idx, pe := range PathElements {
-						child := tempNode.GetChild(pe)
-						if child != nil {
-							oidx = byte(idx)
-							otherChildKey = child
-							break
-						}
-					}
-					ochild, err := mpt.getNode(otherChildKey)
-					if err != nil {
-						return nil, nil, err
-					}
-					npath := []byte{nodeImpl.indexToByte(oidx)}
-					var nnode Node
-					switch onodeImpl := ochild.(type) {
-					case *FullNode:
-						nnode = NewExtensionNode(npath, otherChildKey)
-					case *LeafNode:
-						if onodeImpl.Path != nil {
-							npath = append(npath, onodeImpl.Path...)
-						}
-						lnode := ochild.Clone().(*LeafNode)
-						lnode.SetOrigin(mpt.Version)
-						lnode.Path = npath
-						lnode.Prefix = concat(prefix)
-						nnode = lnode
-						if err := mpt.deleteNode(ochild); err != nil {
-							return nil, nil, err
-						}
-					case *ExtensionNode:
-						if onodeImpl.Path != nil {
-							npath = append(npath, onodeImpl.Path...)
-						}
-						enode := ochild.Clone().(*ExtensionNode)
-						enode.Path = npath
-						nnode = enode
-						if err := mpt.deleteNode(ochild); err != nil {
-							return nil, nil, err
-						}
-					default:
-						panic(fmt.Sprintf("unknown node type: %T %v %T", ochild, ochild, mpt.db))
-					}
-					return mpt.insertNode(node, nnode)
+					return mpt.liftOnlyChild(node, tempNode, prefix)
 				}
 			}
 		}
@@ -741,6 +703,57 @@ func (mpt *MerklePatriciaTrie) deleteAtNode(key Key, node Node, prefix, path Pat
 	default:
 		panic(fmt.Sprintf("unknown node type: %T %v", node, node))
 	}
+}
+
+// liftOnlyChild replaces node with the only child left in tempNode (a copy of
+// node without value): a full node child gets a one element extension, a leaf
+// or extension child is merged with its index.
+func (mpt *MerklePatriciaTrie) liftOnlyChild(node Node, tempNode *FullNode, prefix Path) (Node, Key, error) {
+	var otherChildKey []byte
+	var oidx byte
+	for idx, pe := range PathElements {
+		child := tempNode.GetChild(pe)
+		if child != nil {
+			oidx = byte(idx)
+			otherChildKey = child
+			break
+		}
+	}
+	ochild, err := mpt.getNode(otherChildKey)
+	if err != nil {
+		return nil, nil, err
+	}
+	npath := []byte{tempNode.indexToByte(oidx)}
+	var nnode Node
+	switch onodeImpl := ochild.(type) {
+	case *FullNode:
+		nnode = NewExtensionNode(npath, otherChildKey)
+	case *LeafNode:
+		if onodeImpl.Path != nil {
+			npath = append(npath, onodeImpl.Path...)
+		}
+		lnode := ochild.Clone().(*LeafNode)
+		lnode.SetOrigin(mpt.Version)
+		lnode.Path = npath
+		lnode.Prefix = concat(prefix)
+		nnode = lnode
+		if err := mpt.deleteNode(ochild); err != nil {
+			return nil, nil, err
+		}
+	case *ExtensionNode:
+		if onodeImpl.Path != nil {
+			npath = append(npath, onodeImpl.Path...)
+		}
+		enode := ochild.Clone().(*ExtensionNode)
+		enode.Path = npath
+		nnode = enode
+		if err := mpt.deleteNode(ochild); err != nil {
+			return nil, nil, err
+		}
+	default:
+		panic(fmt.Sprintf("unknown node type: %T %v %T", ochild, ochild, mpt.db))
+	}
+	return mpt.insertNode(node, nnode)
 }
 
 func (mpt *MerklePatriciaTrie) insertAfterPathTraversal(value MPTSerializable, node Node) (Node, Key, error) {
